@@ -141,3 +141,68 @@ def ser_tree(t, pick=None):
     if k == "mi": return b"\xbf" + b"".join(ser_tree(x, pick) for x in t[1]) + b"\xff"
     if k == "g": return hd(6, t[1]) + ser_tree(t[2], pick)
     raise ValueError(t)
+
+
+# ---- a small CBOR data-model parser (for plugin-side oracles): bytes -> (item, rest) or None ----
+import struct
+def parse_item(b, depth=0):
+    """Data-model value of the first well-formed item of b: ints by value, strings with chunks concatenated, arrays and
+    maps regardless of definiteness, floats by numeric value (NaN collapsed). Returns (item, remaining bytes) or None."""
+    if not b or depth > 200: return None
+    ib, mt, ai = b[0], b[0] >> 5, b[0] & 31
+    r = b[1:]
+    def arg():
+        nonlocal r
+        if ai < 24: return ai
+        w = {24: 1, 25: 2, 26: 4, 27: 8}.get(ai)
+        if w is None or len(r) < w: return None
+        n = int.from_bytes(r[:w], "big"); r = r[w:]; return n
+    if mt == 7:
+        if ai < 24: return (("s", ai), r)
+        if ai == 24: return ((("s", r[0]), r[1:]) if r and r[0] >= 32 else None)
+        if ai in (25, 26, 27):
+            w = {25: 2, 26: 4, 27: 8}[ai]
+            if len(r) < w: return None
+            v = struct.unpack({2: ">e", 4: ">f", 8: ">d"}[w], r[:w])[0]
+            return (("f", "nan" if v != v else struct.pack(">d", v)), r[w:])
+        return None
+    if ai == 31:
+        if mt in (2, 3):
+            acc = b""
+            while True:
+                if not r: return None
+                if r[0] == 0xff: return (("b" if mt == 2 else "t", acc), r[1:])
+                if r[0] >> 5 != mt or r[0] & 31 == 31: return None
+                x = parse_item(r, depth + 1)
+                if x is None: return None
+                acc += x[0][1]; r = x[1]
+        if mt in (4, 5):
+            items = []
+            while True:
+                if not r: return None
+                if r[0] == 0xff:
+                    if mt == 5 and len(items) % 2: return None
+                    return (("a" if mt == 4 else "m", items), r[1:])
+                x = parse_item(r, depth + 1)
+                if x is None: return None
+                items.append(x[0]); r = x[1]
+        return None
+    n = arg()
+    if n is None: return None
+    if mt == 0: return (("i", n), r)
+    if mt == 1: return (("i", -1 - n), r)
+    if mt in (2, 3):
+        if len(r) < n: return None
+        return (("b" if mt == 2 else "t", bytes(r[:n])), r[n:])
+    if mt in (4, 5):
+        cnt = n if mt == 4 else 2 * n
+        if cnt > len(r): return None
+        items = []
+        for _ in range(cnt):
+            x = parse_item(r, depth + 1)
+            if x is None: return None
+            items.append(x[0]); r = x[1]
+        return (("a" if mt == 4 else "m", items), r)
+    x = parse_item(r, depth + 1)
+    if x is None: return None
+    return (("g", n, x[0]), x[1])
